@@ -100,6 +100,7 @@ type Shared struct {
 	cfg    *Config
 	St     Stats
 	stop   bool
+	witSeen, witKept map[string]int
 }
 
 // Engine is the per-worker exploration state.
@@ -473,6 +474,31 @@ func (e *Engine) choices(m map[string]uint64) map[string]uint64 {
 	return out
 }
 
+// wantWitness: a few witnesses per distinct reason a path was abandoned.
+// The first few abandoned paths per reason and then every 23rd are witnessed (spread over
+// the exploration order), at most 40 per reason.
+func (e *Engine) wantWitness(msg string) bool {
+	e.sh.mu.Lock()
+	defer e.sh.mu.Unlock()
+	if e.sh.witSeen == nil {
+		e.sh.witSeen, e.sh.witKept = map[string]int{}, map[string]int{}
+	}
+	e.sh.witSeen[msg]++
+	n := e.sh.witSeen[msg]
+	if (n <= 6 || n%23 == 0) && e.sh.witKept[msg] < 40 {
+		e.sh.witKept[msg]++
+		return true
+	}
+	return false
+}
+
+func (e *Engine) reportWitness(msg string, m map[string]uint64, detail string) {
+	e.sh.mu.Lock()
+	defer e.sh.mu.Unlock()
+	e.sh.St.ViolCount["unsupported:"+msg]++
+	e.sh.St.Viol = append(e.sh.St.Viol, Violation{Kind: "unsupported", Label: msg, Model: m, Choices: e.choices(m), Path: e.pathNo, Detail: detail})
+}
+
 func (e *Engine) report(kind, label string, m map[string]uint64, detail string) {
 	e.sh.mu.Lock()
 	defer e.sh.mu.Unlock()
@@ -627,10 +653,20 @@ func (e *Engine) runPath(prefix []dec) {
 
 	switch kind {
 	case "unsupported":
-		if e.cfg.ReportBudget && strings.HasPrefix(msg, "step budget") {
+		if strings.HasPrefix(msg, "step budget") {
+			if e.cfg.ReportBudget {
+				r, m := e.query(nil, true, e.cfg.AssertTimeMs)
+				if r == "sat" {
+					e.report("budget", "step budget exhausted (possible non-termination)", m, i.where())
+				}
+			}
+		} else if e.wantWitness(msg) {
+			// the engine cannot model what the code did on this path: keep one concrete
+			// input that drives the real build down it (replayed natively by the caller), so
+			// the path is at least witnessed rather than silently dropped
 			r, m := e.query(nil, true, e.cfg.AssertTimeMs)
 			if r == "sat" {
-				e.report("budget", "step budget exhausted (possible non-termination)", m, i.where())
+				e.reportWitness(msg, m, i.where())
 			}
 		}
 	case "panic":
